@@ -22,9 +22,9 @@ import (
 // crashCase is one byte stream delivered at one stage.
 type crashCase struct {
 	ID    int    `json:"id"`
-	Stage string `json:"stage"` // connect | handshake | ready | ready-tx | ready-block
-	Name  string `json:"name"`  // base message + mutation
-	Hex   string `json:"hex"`   // bytes delivered after the stage prefix
+	Stage string `json:"stage"`          // connect | handshake | ready | ready-tx | ready-block
+	Name  string `json:"name"`           // base message + mutation
+	Hex   string `json:"hex"`            // bytes delivered after the stage prefix
 	Then  string `json:"then,omitempty"` // optional valid letter delivered after the mutated bytes
 }
 
@@ -142,10 +142,10 @@ func buildCases(thorough bool) []crashCase {
 	outpoint := append(make([]byte, 32), 0, 0, 0, 0)
 	for _, v := range hostileVarints {
 		txs := map[string][]byte{
-			"inputs=" + v.name:         tx(ver, v.b),
-			"input-script=" + v.name:   tx(ver, []byte{1}, outpoint, v.b),
-			"outputs=" + v.name:        tx(ver, []byte{1}, outpoint, []byte{0}, []byte{0xff, 0xff, 0xff, 0xff}, v.b),
-			"output-script=" + v.name:  tx(ver, []byte{1}, outpoint, []byte{0}, []byte{0xff, 0xff, 0xff, 0xff}, []byte{1}, make([]byte, 8), v.b),
+			"inputs=" + v.name:        tx(ver, v.b),
+			"input-script=" + v.name:  tx(ver, []byte{1}, outpoint, v.b),
+			"outputs=" + v.name:       tx(ver, []byte{1}, outpoint, []byte{0}, []byte{0xff, 0xff, 0xff, 0xff}, v.b),
+			"output-script=" + v.name: tx(ver, []byte{1}, outpoint, []byte{0}, []byte{0xff, 0xff, 0xff, 0xff}, []byte{1}, make([]byte, 8), v.b),
 		}
 		var keys []string
 		for k := range txs {
@@ -441,12 +441,12 @@ func runC15(tier string) int {
 	}
 	ev := &mc.Evidence{PropertyID: "C15", Tier: tier, Level: "exploration",
 		Coverage: map[string]any{
-			"evaluations":         len(cases),
-			"distinct_nontrivial": nontrivial,
-			"rule": "complete structured enumeration: 5 session stages (before handshake, handshake complete, ready, ready with tx manager, ready with a block requested) x {19 base messages x frame mutations (11 declared lengths, corrupt checksum / magic / command, truncation at every header field boundary and inside the payload, 9 hostile values for the leading count), extended headers for tx/block/headers/unknown with 8 declared lengths up to 2^64-1 and no data, headers with 14 bits encodings x 4 timestamps, transactions (classic, extended, inside the requested block) with 9 hostile values for each of input count / input script length / output count / output script length, blocks with hostile transaction counts, a block whose frame length is shorter than its content}; thorough adds ordered (mutated, valid) pairs. Every case is one run of a real node (sharing repositories with a healthy witness node) in a worker process under an 8 GB address-space limit; every case is a distinct hostile input (all non-trivial); a dying worker identifies the case, which is re-run alone to confirm",
-			"exhaustive": true,
-			"outcomes":   outcomes,
-			"samples":    samples,
+			"evaluations":                   len(cases),
+			"distinct_nontrivial":           nontrivial,
+			"rule":                          "complete structured enumeration: 5 session stages (before handshake, handshake complete, ready, ready with tx manager, ready with a block requested) x {19 base messages x frame mutations (11 declared lengths, corrupt checksum / magic / command, truncation at every header field boundary and inside the payload, 9 hostile values for the leading count), extended headers for tx/block/headers/unknown with 8 declared lengths up to 2^64-1 and no data, headers with 14 bits encodings x 4 timestamps, transactions (classic, extended, inside the requested block) with 9 hostile values for each of input count / input script length / output count / output script length, blocks with hostile transaction counts, a block whose frame length is shorter than its content}; thorough adds ordered (mutated, valid) pairs. Every case is one run of a real node (sharing repositories with a healthy witness node) in a worker process under an 8 GB address-space limit; every case is a distinct hostile input (all non-trivial); a dying worker identifies the case, which is re-run alone to confirm",
+			"exhaustive":                    true,
+			"outcomes":                      outcomes,
+			"samples":                       samples,
 			"worker_address_space_limit_kb": 8000000,
 		},
 		Assumptions: []string{
